@@ -150,6 +150,7 @@ class _WaveID3(ID3):
 
         delete(filething)
         self.clear()
+        self.unknown_frames = []
 
 
 @convert_error(IOError, error)
